@@ -350,18 +350,38 @@ def spec_mode_allowed(rt, rm):
     return True
 
 
-FAIL_SIGS = [
-    ('wrong type of value for "redirect_uri"', "redirect-uri-not-a-string"),   # the repaired pick_redirect_uri defect (37f56f5)
-    ("Could not sign/encrypt id_token", "hs-sign:id_token"),
-    ("NoSuitableSigningKeys", "hs-sign:userinfo"),
-    ("wrapping key must be a valid AES key length", "kw-secret-length"),
-    ("Nonce missing", "byref-nonce-missing"),
-    ("consent in prompt", "byref-consent-missing"),
-    ("Not for me", "par-jwt-audience"),
-    ("'str' object has no attribute 'get'", "par-claims-not-parsed"),
-    ("wrong response_mode", "mode-refused-by-provider"),
-    ("Could not pick a redirect_uri", "mode-refused-by-rp"),
-]
+# Known findings of the current tree (known_findings.txt).  A key is used ONLY when the cell belongs to the class
+# the finding describes (a condition on the cell and the inputs, written from the finding text) AND the flow
+# stopped at the place and with the diagnostic of that finding; every other non-completing cell gets a
+# `fail:<place>` key, which no entry of known_findings.txt matches.
+JWT_METHODS = ("client_secret_jwt", "private_key_jwt")
+BYREF = ("request_uri", "par")
+
+
+def finding_key(rec, T):
+    c, out = rec["cell"], rec["outcome"]
+    where, detail = out["where"], out["detail"]
+    rts = c["rt"].split(" ")
+    hs = lambda a: a is not None and T["sig_fam"].get(a) == "HS"      # noqa: E731
+    cands = [
+        ("hs-sign:id_token", hs(c["idt_sig"]), ("authz_process", "token"), ("Could not sign/encrypt id_token",)),
+        ("hs-sign:userinfo", hs(c["ui_sig"]), ("userinfo",), ("NoSuitableSigningKeys",)),
+        ("kw-secret-length", bool(c["ui_enc"]) and T["enc_fam"].get(c["ui_enc"][0]) == "KW" and c["secret_len"] not in (16, 24, 32),
+         ("userinfo",), ("wrapping key must be a valid AES key length",)),
+        ("byref-nonce-missing", c["transport"] in BYREF and "id_token" in rts, ("authz_parse",), ("Nonce missing",)),
+        ("byref-consent-missing", c["transport"] in BYREF and "offline_access" in rec["scope"], ("authz_parse",), ("consent in prompt",)),
+        ("par-jwt-audience", c["transport"] == "par" and c["auth"] in JWT_METHODS, ("par",), ("Not for me",)),
+        ("par-claims-not-parsed", c["transport"] == "par" and rec["claims"] is not None, ("authz_process",),
+         ("'str' object has no attribute 'get'", "KeyError: 'response_mode'")),
+        ("mode-refused-by-provider", c["rt"] == "code" and c["rm"] == "fragment", ("authz_process",), ("wrong response_mode",)),
+        ("mode-refused-by-rp", c["rt"] == "code" and c["rm"] == "fragment", ("rp_init",), ("Could not pick a redirect_uri",)),
+    ]
+    for key, in_class, places, needles in cands:
+        if in_class and where in places and any(n in detail for n in needles):
+            return key
+    if 'wrong type of value for "redirect_uri"' in detail:
+        return "redirect-uri-not-a-string"          # the repaired pick_redirect_uri defect (37f56f5)
+    return "fail:%s" % where
 
 
 def expected_default_delivery(rt):
@@ -381,16 +401,7 @@ def oracle(ctx, rec, T):
         if not supported:
             ctx.count("refused:unsupported-combination")
             return
-        sig = None
-        for needle, s in FAIL_SIGS:
-            if needle in out["detail"]:
-                sig = s
-                break
-        if c["transport"] == "par" and rec["claims"] is not None and out["where"] == "authz_process" and (
-                sig is None or "KeyError: 'response_mode'" in out["detail"]):
-            sig = "par-claims-not-parsed"     # without a response_mode the error path itself raises KeyError
-        if sig is None:
-            sig = "fail:%s" % out["where"]
+        sig = finding_key(rec, T)
         ctx.violation(sig, "flow does not complete (stops at %s: %s) for a combination both halves advertise: %s "
                            "scope=%s" % (out["where"], out["detail"][:160], json.dumps(cellname, default=str), rec["scope"]), rec)
         return
@@ -475,7 +486,8 @@ def oracle(ctx, rec, T):
                         y = y - skew
                 if x != y:
                     sig = "views:%s" % f
-                    if f == "idt_exp" and "op_session" in (a, b) and vs["op_session"].get("idt_exp") == 0:
+                    if (f == "idt_exp" and "op_session" in (a, b) and vs["op_session"].get("idt_exp") == 0
+                            and not rec["has_token"]):
                         sig = "idt-exp-unrecorded"     # the session database holds expires_at = 0 for this ID Token
                     ctx.violation(sig, "%s differs between views: %s has %r, %s has %r (cell %s, scope %s)" % (
                         f, a, vs[a].get(f), b, vs[b].get(f), json.dumps(cellname, default=str), rec["scope"]), rec)
@@ -704,6 +716,29 @@ def limit_matrix(rng, T):
     return jobs
 
 
+def fixed_witnesses():
+    """One fully fixed flow per entry of known_findings.txt (nothing drawn from the seed): the KNOWN-FINDING lines
+    are printed on every run, for every VERIF_SEED; these are the C12_refuted_* cells of Props/C12.v."""
+    def job(key, scope=("openid",), claims=None, **kw):
+        return {"cell": base_cell(**kw), "scope": list(scope), "claims": claims, "user": "diana", "latency": 0,
+                "kind": "witness:" + key}
+    return [
+        job("hs-sign:id_token", idt_sig="HS256"),
+        job("hs-sign:id_token", idt_sig="HS256", rt="id_token"),
+        job("hs-sign:userinfo", ui_sig="HS256"),
+        job("idt-enc-not-applied", idt_enc=("RSA-OAEP", "A128CBC-HS256")),
+        job("kw-secret-length", ui_enc=("A128KW", "A128GCM"), secret_len=56),
+        job("byref-nonce-missing", rt="code id_token", transport="request_uri"),
+        job("byref-nonce-missing", rt="id_token", transport="par"),
+        job("byref-consent-missing", scope=("openid", "offline_access"), transport="par"),
+        job("par-jwt-audience", transport="par", auth="private_key_jwt"),
+        job("par-claims-not-parsed", transport="par", claims={"userinfo": {"nickname": None}}),
+        job("mode-refused-by-provider", rm="fragment", rp_all_rts=True),
+        job("mode-refused-by-rp", rm="fragment", rp_all_rts=False),
+        job("idt-exp-unrecorded", rt="id_token"),
+    ]
+
+
 def thorough_jobs(rng, T):
     jobs = []
 
@@ -797,13 +832,14 @@ def run(ctx):
     rng = ctx.rng
     T = tables()
     prepare_keys()
-    jobs = limit_matrix(rng, T)
+    jobs = fixed_witnesses() + limit_matrix(rng, T)
     rows = pairwise_rows(rng, T)
     jobs += concretise(rng, rows, T)
     if not ctx.quick:
         jobs += thorough_jobs(rng, T)
-    ctx.notes.append("%d flows: %d limit-matrix / neighbour cells, %d pairwise rows%s" % (
-        len(jobs), len(limit_matrix(random.Random(0), T)), len(rows), "" if ctx.quick else ", plus the sub-products"))
+    ctx.notes.append("%d flows: %d fixed witnesses, %d limit-matrix / neighbour cells, %d pairwise rows%s" % (
+        len(jobs), len(fixed_witnesses()), len(limit_matrix(random.Random(0), T)), len(rows),
+        "" if ctx.quick else ", plus the sub-products"))
     workers = int(os.environ.get("VERIF_C12_WORKERS", "0")) or min(8, max(2, (os.cpu_count() or 4) // 2))
     t0 = time.time()
     recs = execute(jobs, workers)
